@@ -170,9 +170,13 @@ func (c *ctx) collisionUnits() []*unit {
 					set := []*sealedEnv{s1}
 					// the sealed triple itself is accepted (also exercises the boundary lengths end to end)
 					if _, ok := u.consumeAndJudge(s1.bytes, t1.d, "raw", set, "none", nil); !ok {
-						u.violate("collide:sealed-triple-not-accepted/"+fam.name, "an envelope sealed for "+t1.String()+" is not accepted back", map[string]any{"key": k.name, "priv": hx(k.privBytes), "envelope": hx(s1.bytes)})
+						// refusing an honest envelope is not a violation of the ("accepted only if") statement,
+						// but nothing can be concluded from this pair then
+						c.r.Inconclusive(u.id, "an envelope sealed for "+t1.String()+" is not accepted back")
+						u.count("collide_sealed_triple_not_accepted", 1)
 						continue
 					}
+					u.count("collide_sealed_triple_accepted", 1)
 					fs, err := pbParse(s1.bytes)
 					if err != nil || len(fs) != 4 {
 						continue
